@@ -58,6 +58,14 @@ def execute(c):
             put("acc_dask_" + dims[0], lambda: da.chunk({"y": 1, "x": 1}).hdc.algo.autocorr().compute())
             if dims[0] == "time" and len(xi) > 4:
                 put("acc_dask_timechunked", lambda: da.chunk({"time": 2}).hdc.algo.autocorr().compute())
+        # cubes in which a spatial axis is as long as the time axis (ny == nt, nx == nt): the layout is a matter of
+        # dimension NAMES; the series sits at one pixel among rolled copies of itself
+        n = len(xi)
+        if n <= 40:
+            for dims, tag in ((("y", "x", "time"), "sq_yxt"), (("y", "time", "x"), "sq_ytx"), (("time", "y", "x"), "sq_tyx")):
+                cube = np.stack([np.stack([np.roll(xi, i + 2 * j) if (i, j) != (n - 1, 1) else xi for j in range(2)]) for i in range(n)])   # (y = n, x = 2, time = n)
+                dq = xr.DataArray(cube, dims=("y", "x", "time"), attrs={"nodata": ND}).transpose(*dims)
+                put("acc_" + tag, lambda: dq.hdc.algo.autocorr().transpose("y", "x").values[n - 1, 1])
     c["data"] = ["nan" if v is None else str(v) for v in vals]
     c["rs"], c["apis"] = rs, apis
     c["exc"] = next((f"{a}:{e}" for a, e in zip(apis, excs) if e), "")
